@@ -6,6 +6,7 @@ mod keys;
 mod ksim;
 mod lsim;
 mod pinfo;
+mod swev;
 
 fn main() {
     let args: Vec<String> = std::env::args().collect();
@@ -18,6 +19,7 @@ fn main() {
         "lsim" => lsim::run(&args[2..]),
         "ksim" => ksim::run(&args[2..]),
         "pinfo" => pinfo::run(&args[2..]),
+        "swev" => swev::run(&args[2..]),
         other => {
             eprintln!("unknown subcommand {other}");
             std::process::exit(2);
